@@ -44,6 +44,7 @@ class SourceNode(BaseNode):
                 env.sources[parser.name] = penv.sources[parser.name]
                 env.sources[parser.name].nodes = penv.nodes
                 env.sources[parser.name].sources = penv.sources
+                env.sources[parser.name].units = penv.units
             else:
                 # source is a text file
                 filepath = parser.value_raw
